@@ -185,12 +185,14 @@ func (o *catchpointObs) AfterBlock(s *Sim, qseed uint64) {
 					return
 				}
 				r.next++
+				// quiesce after EVERY block: adding blocks back to back races the root goroutine against
+				// the ledger's syncer/commit goroutines in real time (e.g. whether a deferred commit is
+				// accepted or skipped), which the determinism self-test showed as diverging logs
+				synctest.Wait()
 				if rg.IntN(3) == 0 {
-					synctest.Wait()
 					o.note(s, fmt.Sprintf("replica %d", r.id), r.label, r.led.GetLastCatchpointLabel())
 				}
 			}
-			synctest.Wait()
 		}
 		o.note(s, fmt.Sprintf("replica %d", r.id), r.label, r.led.GetLastCatchpointLabel())
 	}
